@@ -1,1 +1,94 @@
-From PdfV Require Import Model.Xref.
+(* C02 -- Cross-reference resolution: newest definition wins, in every physical form.
+   Property theorems only (Model/Xref.v mirrors PDFXRefStream.get_pos / get_objids, PDFXRef.load's
+   line handling, the xrefs chain of PDFDocument.getobj with object-stream members, and
+   PSBaseParser.nextline / revreadlines with PDFDocument.find_xref).
+   The correspondence between sections and the bytes of whole files, caching on/off and the
+   fallback scan after a damaged startxref/table are covered by differential runs (evidence). *)
+From Coq Require Import ZArith List Bool.
+From PdfV Require Import Base.CV Model.Xref Model.XrefRun Proofs.XrefProofs.
+Import ListNotations.
+Open Scope Z_scope.
+
+(* every read-buffer size: the line the tokenizer-level reader returns is the specified one,
+   however the file is cut into buffers *)
+Theorem C02_nextline : forall cur rest,
+  match spec_nextline (cur ++ concat rest) with
+  | None => nextline cur rest = None
+  | Some (l, t) => exists cur' rest', nextline cur rest = Some (l, cur', rest') /\ cur' ++ concat rest' = t
+  end.
+Proof. exact nextline_chunk_independent. Qed.
+
+Theorem C02_revreadlines : forall b data, (0 < b)%nat -> revreadlines b data = rev_spec (rev data) [].
+Proof. exact revreadlines_spec. Qed.
+
+Theorem C02_find_xref : forall b1 b2 data, (0 < b1)%nat -> (0 < b2)%nat ->
+  find_xref b1 data = find_xref b2 data.
+Proof. exact find_xref_bufsize_independent. Qed.
+
+(* cross-reference streams: every W, every /Index partition *)
+Theorem C02_stream_fields : forall ranges (w1 w2 w3 : nat) es x,
+  Forall (fun sc => 0 <= snd sc) ranges -> Forall (ent_fits w1 w2 w3) es ->
+  length es = length (flat_map range_ids ranges) ->
+  xs_get_pos (mkXS ranges (Z.of_nat w1) (Z.of_nat w2) (Z.of_nat w3) (flat_map (enc_ent w1 w2 w3) es)) x =
+  match find_index x (flat_map range_ids ranges) 0 with
+  | None => None
+  | Some i => match nth_error es i with
+              | Some (t, a, b) =>
+                  let t' := fieldval w1 1 t in
+                  if t' =? 1 then Some (EDirect (fieldval w2 0 a) (fieldval w3 0 b))
+                  else if t' =? 2 then Some (EInStm (fieldval w2 0 a) (fieldval w3 0 b)) else None
+              | None => None
+              end
+  end.
+Proof. exact xs_get_pos_spec. Qed.
+
+Theorem C02_objids : forall ranges (w1 w2 w3 : nat) es,
+  Forall (fun sc => 0 <= snd sc) ranges -> Forall (ent_fits w1 w2 w3) es ->
+  length es = length (flat_map range_ids ranges) ->
+  xs_get_objids (mkXS ranges (Z.of_nat w1) (Z.of_nat w2) (Z.of_nat w3) (flat_map (enc_ent w1 w2 w3) es)) =
+  map fst (filter (fun p => inuse w1 (snd p)) (combine (flat_map range_ids ranges) es)).
+Proof. exact xs_get_objids_spec. Qed.
+
+(* classic table entries, three line endings *)
+Theorem C02_table_entry : forall pos gen e,
+  0 <= pos < 10 ^ 10 -> 0 <= gen < 10 ^ 5 -> ent_eol_ok e ->
+  table_entry (pad 10 pos ++ [32] ++ pad 5 gen ++ [32; 110] ++ e) = TOk (Some (pos, gen)) /\
+  table_entry (pad 10 pos ++ [32] ++ pad 5 gen ++ [32; 102] ++ e) = TOk None.
+Proof. exact table_entry_roundtrip. Qed.
+
+(* newest definition wins: sections are consulted in order (newest first) *)
+Theorem C02_newest_wins : forall fuel secs c objid, no_compressed secs objid ->
+  getobj (S fuel) secs c objid = match first_valid secs c objid with Some v => GFound v | None => GNotFound end.
+Proof. exact getobj_direct. Qed.
+
+Theorem C02_objstm_member : forall fuel s r c objid stm k n objs v,
+  sec_get_pos s objid = Some (EInStm stm k) ->
+  getobj fuel (s :: r) c stm = GFound (OStm n objs) ->
+  0 <= n * 2 + k -> nth_error objs (Z.to_nat (n * 2 + k)) = Some v ->
+  getobj (S fuel) (s :: r) c objid = GFound (OPlain v).
+Proof. exact getobj_compressed. Qed.
+
+From Coq Require Import String.
+Open Scope string_scope.
+(* non-vacuity: an update overriding object 4 in an xref stream with two /Index ranges, W = [1 2 1];
+   object 7 lives in object stream 9 *)
+Example C02_nonvacuous :
+  let new := SStream (mkXS [(4, 1); (7, 3)] 1 2 1 (hx "01 0200 00  02 0009 01  00 0000 ff  01 0300 00")) in
+  let old := STable [(4, (100, 0)); (5, (150, 0))] in
+  let c := content_of [(512, (4, OPlain 44)); (100, (4, OPlain 40)); (150, (5, OPlain 50));
+                       (768, (9, OStm 2 [6; 0; 7; 10; 60; 70]))] in
+  map (fun n => canon_gres (getobj 5 [new; old] c n)) [4; 5; 7; 8; 9]
+  = [CL [CZ 0; CZ 44]; CL [CZ 0; CZ 50]; CL [CZ 0; CZ 70]; CL [CZ 2]; CL [CZ 1; CZ 2]]
+  /\ xs_get_objids (mkXS [(4, 1); (7, 3)] 1 2 1 (hx "01 0200 00  02 0009 01  00 0000 ff  01 0300 00")) = [4; 7; 9]
+  /\ run_find_xref (3%nat, hx "2525454f460a737461727478726566 0d0a 313233 0d0a 2525454f46 0a") = CL [CZ 123].
+Proof. cbv zeta. repeat split; vm_compute; reflexivity. Qed.
+
+Print Assumptions C02_nextline.
+Print Assumptions C02_revreadlines.
+Print Assumptions C02_find_xref.
+Print Assumptions C02_stream_fields.
+Print Assumptions C02_objids.
+Print Assumptions C02_table_entry.
+Print Assumptions C02_newest_wins.
+Print Assumptions C02_objstm_member.
+Print Assumptions C02_nonvacuous.
